@@ -1,7 +1,7 @@
 """C19 -- unit-timing normalisation preserves the lock-step schedule."""
 from itertools import zip_longest
 
-from .. import sx, lib, meaning as M, monitors, minimise
+from .. import sx, lib, meaning as M, monitors, minimise, apiroute
 from .common import header_diff, native_names, sig, case_prog
 
 RULE = ("programs with arbitrary alternating nesting of sequential and parallel blocks to depth 6 with unequal branch lengths, "
@@ -14,7 +14,7 @@ RULE = ("programs with arbitrary alternating nesting of sequential and parallel 
 ASSUMPTIONS = ["a loop is an opaque item of the outer sequence; its body is compared by meaning, not re-scheduled",
                "a subcircuit block is an opaque annotated item whose inner schedule must be preserved"]
 TIERS = {"quick": {"shards": 8, "budget_s": 40}, "thorough": {"shards": 16, "budget_s": 300}}
-REQUIRE = {"schedules-compared": 1500, "loop-under-parallel": 200, "unequal-branches": 500, "with-subcircuit": 200,
+REQUIRE = {"parallel-subcircuit-blocks-fused": 300, "schedules-compared": 1500, "loop-under-parallel": 200, "unequal-branches": 500, "with-subcircuit": 200,
            "empty-blocks": 200, "depth>=4": 200}
 
 
@@ -103,6 +103,12 @@ def judge(case):
     if o[0] != "ok":
         return "skipped:input-rejected", [], {}
     c = o[1]
+    fused = 0
+    if case.get("fuse"):
+        of = lib.outcome(apiroute.fuse_parallel_subcircuits, c)
+        if of[0] != "ok":
+            return "inconclusive:cannot-fuse:%s" % (of[2],), [], {}
+        c, fused = of[1]
     try:
         kc = M.core_from_ir(c)
         body = raw_body(kc)
@@ -114,7 +120,7 @@ def judge(case):
     except MustReject as ex:
         expect = None
         must_reject = str(ex)
-    info = {"must_reject": must_reject}
+    info = {"must_reject": must_reject, "fused": fused}
     fails = []
     o = lib.outcome(lib.unit_timing, c)
     if o[0] == "exc":
@@ -197,7 +203,7 @@ def gen_prog(rng):
                     items.append(("loop", rng.choice([0, 1, 3, "n"]), block(rng.choice(["sequential_block", "sequential_block", "parallel_block"]), depth + 1, in_par, in_sub)))
                 elif not in_par and not in_sub:
                     feats.add("sub")
-                    items.append(("subcircuit_block", rng.choice(["", "", 5, "n"])) + block("sequential_block", depth + 1, in_par, True)[1:])
+                    items.append(("subcircuit_block", rng.choice(["", "", 5, "n", 0, 1, "z"])) + block("sequential_block", depth + 1, in_par, True)[1:])
                 else:
                     items.append(gate())
             else:
@@ -220,8 +226,8 @@ def gen_prog(rng):
             body.append(("loop", rng.choice([0, 2, "n"]), block("sequential_block", 1, False, False)))
         else:
             feats.add("sub")
-            body.append(("subcircuit_block", rng.choice(["", 3])) + block("sequential_block", 1, False, True)[1:])
-    hdr = [("let", "n", 2), ("register", "q", 3), ("map", "a", "q", 0, 2, 1)]
+            body.append(("subcircuit_block", rng.choice(["", 3, 0, 1])) + block("sequential_block", 1, False, True)[1:])
+    hdr = [("let", "n", 2), ("let", "z", 0), ("register", "q", 3), ("map", "a", "q", 0, 2, 1)]
     if rng.random() < 0.3:
         hdr.insert(0, ("usepulses", "some.pulses", "*"))
     mac = ("macro", "mm", "t", ("sequential_block", ("gate", "g", "t")))
@@ -259,6 +265,8 @@ def process(ctx, case, feats, seen):
     rec.count("judged")
     if info.get("compared"):
         rec.count("schedules-compared")
+    if info.get("fused"):
+        rec.count("parallel-subcircuit-blocks-fused", info["fused"])
     if info.get("must_reject"):
         rec.count("loop-under-parallel")
     if unequal(prog):
@@ -274,14 +282,17 @@ def process(ctx, case, feats, seen):
         if seen[clause] > 3:
             rec.count("unminimised-repeat:" + clause)
             continue
-        small = minimise.minimise(prog, lambda p: clause in _clauses({"prog": p}), budget=200)
-        d2 = [x for x in judge({"prog": small})[1] if x[0] == clause]
+        base = {"fuse": True} if (case.get("fuse") and clause not in _clauses({"prog": prog})) else {}
+        small = minimise.minimise(prog, lambda p: clause in _clauses(dict(base, prog=p)), budget=200)
+        d2 = [x for x in judge(dict(base, prog=small))[1] if x[0] == clause]
         f = set()
+        if base:
+            f.add("parallel-subcircuit-block-made-from-core-objects")
         if any(s[0] == "subcircuit_block" for s in sx.walk(small)):
             f.add("sub")
         if any(s[0] == "usepulses" for s in sx.walk(small)):
             f.add("usepulses")
-        rec.violation(sig("C19", clause, f), d2[0][1] if d2 else detail, {"prog": small})
+        rec.violation(sig("C19", clause, f), d2[0][1] if d2 else detail, dict(base, prog=small))
 
 
 def shard(ctx):
@@ -293,7 +304,10 @@ def shard(ctx):
     while i < n and not rec.expired():
         i += 1
         prog, feats = gen_prog(ctx.rng)
-        process(ctx, {"prog": prog}, feats, seen)
+        case = {"prog": prog}
+        if "sub" in feats and ctx.rng.random() < 0.5:
+            case["fuse"] = True
+        process(ctx, case, feats, seen)
         if i <= 3:
             rec.sample({"text": sx.to_text(prog)})
     monitors.report_contracts(rec)
